@@ -540,14 +540,15 @@ func (c *Ctx) queueEffects(entry *ssa.Function) ([]queueEffect, string) {
 	for _, p := range entry.Params {
 		own[p] = true
 	}
-	var walk func(f *ssa.Function, bind map[*ssa.Parameter]ssa.Value, depth int)
-	walk = func(f *ssa.Function, bind map[*ssa.Parameter]ssa.Value, depth int) {
+	var walk func(f *ssa.Function, bind map[*ssa.Parameter]ssa.Value, depth int, inhKind, inhKey ssa.Value)
+	walk = func(f *ssa.Function, bind map[*ssa.Parameter]ssa.Value, depth int, inhKind, inhKey ssa.Value) {
 		if depth > 3 {
 			why = "helper chain too deep"
 			return
 		}
-		// event fields written in f
-		var kindV, keyV ssa.Value
+		// event fields written in f (or, when the event is built by a caller and
+		// handed down whole, by that caller)
+		kindV, keyV := inhKind, inhKey
 		for _, b := range f.Blocks {
 			for _, in := range b.Instrs {
 				st, ok := in.(*ssa.Store)
@@ -564,6 +565,12 @@ func (c *Ctx) queueEffects(entry *ssa.Function) ([]queueEffect, string) {
 				case "Key":
 					keyV = bindArg(st.Val, bind)
 				}
+			}
+		}
+		if keyV != nil && keyV != inhKey {
+			// the whitelist joined into the delete-all key is still the caller's own argument
+			if jc, _ := CallOf(keyV); jc != nil && Callee(jc) == "strings.Join" && own[bindArg(Arg(jc, 0), bind)] {
+				own[keyV] = true
 			}
 		}
 		for _, b := range f.Blocks {
@@ -624,12 +631,12 @@ func (c *Ctx) queueEffects(entry *ssa.Function) ([]queueEffect, string) {
 							nb[p] = a
 						}
 					}
-					walk(g, nb, depth+1)
+					walk(g, nb, depth+1, kindV, keyV)
 				}
 			}
 		}
 	}
-	walk(entry, map[*ssa.Parameter]ssa.Value{}, 0)
+	walk(entry, map[*ssa.Parameter]ssa.Value{}, 0, nil, nil)
 	return out, why
 }
 
@@ -735,5 +742,5 @@ func (c *Ctx) respondersWrite(rule string) {
 			r.Ok(rule, FuncName(fn), "success ⇒ written through w", c.P.Pos(fn.Pos()), "every successful completion writes (and thereby flushes the queued client state)")
 		}
 	}
-	r.Check(n >= 3, rule, "ab/defaults", "responders found", "-", sprintf("%d responder functions", n), sprintf("expected at least 3 responder functions in defaults, found %d", n))
+	r.Check(n >= 2, rule, "ab/defaults", "responders found", "-", sprintf("%d responder functions", n), sprintf("expected at least 2 responder functions in defaults, found %d", n))
 }
